@@ -1,16 +1,24 @@
 import CorsVerif.Proofs.Validate
+import CorsVerif.Proofs.Twins
 /-
   C15 — Config lists are sets: order, duplicates and header-name case are irrelevant.
 
-  Proved so far:
+  Proved:
+    * C15_full: two accepted configurations whose lists mean the same sets (`Twin`, defined in
+      Proofs/Twins.lean: same origin patterns; same effective methods after normalisation; same
+      effective header names after byte-lowercasing; `*` and Authorization listed in both or in
+      neither) produce the *same handler function* — same status, same headers, same decision to
+      call the wrapped handler, for every debug setting, request and pre-existing header map.
+      `Twin.of_same_members` (any order, any multiplicity), `Twin.respell_*` (letter case, method
+      spelling), `Twin.add_safelisted_method`, `Twin.symm`, `Twin.trans` show that the documented
+      variations are twins; `C15_perm` is the corollary for permutations.
     * C15_star_auth: the meaning of `*` next to Authorization does not depend on which of the
       two is listed first, in both credential modes, also with duplicates and other letter case;
     * C15_errors_perm: the reported violations of a permuted list are a permutation of the
-      violations of the original list, so acceptance does not depend on order (from C05);
+      violations of the original list (from C05);
     * C15_accept_perm: permuting any of the four lists preserves acceptance.
-  The full statement (identical responses for all twins) needs the order-independence of the
-  three set-building folds and of the tree (C01); it is stated as `C15_full` and is covered by
-  the `twins` relational suite (Go against Go) until proved.
+  The `twins` relational suite (Go against Go) ties the implementation to this: generated twins of
+  generated configurations must be accepted alike and answer generated requests identically.
 -/
 namespace Cors
 open Gen ValidateProofs
@@ -166,15 +174,137 @@ theorem C15_accept_perm (ext : Ext) {c1 c2 : Config} (h : PermTwin c1 c2) :
         subst hx; simp [ETree.leaves]
       · exact hfield _ hx
 
-/-- The full statement, to be proved: twins answer every request identically. -/
-def C15_full : Prop :=
-  ∀ (ext : Ext) (c1 c2 : Config) (i1 i2 : ICfg), PermTwin c1 c2 →
-    newInternalConfig ext c1 = .ok i1 → newInternalConfig ext c2 = .ok i2 →
-    ∀ dbg r pre, (Serve.serve i1 dbg r pre).status = (Serve.serve i2 dbg r pre).status ∧
-      ∀ n, (Serve.serve i1 dbg r pre).hdrs n = (Serve.serve i2 dbg r pre).hdrs n
+/-- In allow-all mode the stored tree is the empty tree. -/
+theorem accepted_tree_star (ext : Ext) (cfg : Config) (icfg : ICfg) (acc : newInternalConfig ext cfg = .ok icfg)
+    (hs : cfg.origins.contains Validate.star = true) : icfg.tree = Node.empty := by
+  obtain ⟨_, rfl⟩ := (accepted_iff ext cfg icfg).mp acc
+  have hne : cfg.origins.isEmpty = false := by
+    cases h : cfg.origins with
+    | nil => rw [h] at hs; cases hs
+    | cons _ _ => rfl
+  simp only [Validate.build, Validate.originsResult, Validate.origins, hne, Bool.false_eq_true, if_false]
+  obtain ⟨_, ha⟩ := origins_fold_parsed ext cfg.credentialed (Validate.pnaAny cfg) cfg.tolInsecure cfg.tolPSL cfg.origins {}
+  rw [ha, hs]
+  rfl
+
+/-- **C15 (twins answer identically).** Two accepted configurations whose lists mean the same
+sets (`Twin`: any order, any multiplicity, any letter case of header names, any spelling of a
+normalisable method, with or without entries that validation drops) produce handlers that are the
+same function: for every debug setting, every request and every pre-existing response header map,
+the same status, the same header map and the same decision to call the wrapped handler.
+
+The hypothesis on `ext` is the one of `C01_parsed`: the IPv6 oracle accepts no literal starting
+with `*` (netip.ParseAddr does not). -/
+theorem C15_full (ext : Ext) (hext : ∀ h info, ext.ip6 h = some info → h.head? ≠ some 42)
+    {c1 c2 : Config} (h : Twin c1 c2) (i1 i2 : ICfg)
+    (a1 : newInternalConfig ext c1 = .ok i1) (a2 : newInternalConfig ext c2 = .ok i2) :
+    Serve.serve i1 = Serve.serve i2 := by
+  have hstar : c1.origins.contains Validate.star = c2.origins.contains Validate.star := contains_congr h.origins _
+  have hempty : i1.tree.isEmpty = i2.tree.isEmpty := by
+    rw [accepted_tree_isEmpty ext c1 i1 a1, accepted_tree_isEmpty ext c2 i2 a2, hstar]
+  -- the origin decision
+  have hcontains : ∀ o : Origin, o.port ≤ 65535 → Tree.contains i1.tree o = Tree.contains i2.tree o := by
+    intro o ho
+    cases hs : c2.origins.contains Validate.star with
+    | true =>
+      rw [accepted_tree_star ext c1 i1 a1 (by rw [hstar, hs]), accepted_tree_star ext c2 i2 a2 hs]
+    | false =>
+      rw [C01_config ext hext c1 i1 a1 (by rw [hstar, hs]) o ho, C01_config ext hext c2 i2 a2 hs o ho, Bool.eq_iff_iff]
+      simp only [List.any_eq_true]
+      constructor
+      · rintro ⟨p, hp, hd⟩; exact ⟨p, (parsedPatterns_congr ext h.origins p).mp hp, hd⟩
+      · rintro ⟨p, hp, hd⟩; exact ⟨p, (parsedPatterns_congr ext h.origins p).mpr hp, hd⟩
+  -- every other field of the internal configuration
+  obtain ⟨_, e1⟩ := (accepted_iff ext c1 i1).mp a1
+  obtain ⟨_, e2⟩ := (accepted_iff ext c2 i2).mp a2
+  have hm := methods_twin h.methodsStar h.methods
+  have hq := requestHeaders_twin c1.credentialed h.reqStar h.reqAuth h.req
+  have hr := responseHeaders_twin c1.credentialed h.resStar h.res
+  have hrest : i1 = { i2 with tree := i1.tree } := by
+    rw [e1, e2]
+    unfold Validate.build
+    simp only []
+    rw [← h.credentialed, ← h.maxAge, ← h.status, ← h.pna, ← h.pnaNoCors, ← h.tolInsecure, ← h.tolPSL, ← hm, ← hq, ← hr]
+  have hdec : Serve.modelDec i1 = Serve.modelDec i2 := by
+    unfold Serve.modelDec
+    congr 1
+    · funext raw
+      cases hp : Lex.parse raw with
+      | none => rfl
+      | some o => exact hcontains o (parse_port_le hp)
+    · have : i1.allowedReqHdrs = i2.allowedReqHdrs := by rw [hrest]
+      rw [this]
+  unfold Serve.serve
+  rw [hdec]
+  conv => lhs; rw [hrest]
+  exact serveDec_congr_tree (Serve.modelDec i2) i2 i1.tree hempty
+
+/-- Corollary for the plainest twins: permuted lists. -/
+theorem C15_perm (ext : Ext) (hext : ∀ h info, ext.ip6 h = some info → h.head? ≠ some 42)
+    {c1 c2 : Config} (h : PermTwin c1 c2) (i1 i2 : ICfg)
+    (a1 : newInternalConfig ext c1 = .ok i1) (a2 : newInternalConfig ext c2 = .ok i2) :
+    Serve.serve i1 = Serve.serve i2 :=
+  C15_full ext hext (Twin.of_same_members h.credentialed h.maxAge h.status h.pna h.pnaNoCors h.tolInsecure h.tolPSL
+    (fun _ => h.origins.mem_iff) (fun _ => h.methods.mem_iff) (fun _ => h.requestHeaders.mem_iff)
+    (fun _ => h.responseHeaders.mem_iff)) i1 i2 a1 a2
+
+/-! ### Non-vacuity: a concrete pair of accepted twins that differ in order, multiplicity, letter
+case, method spelling and dropped entries -/
+
+theorem mem_iff_of_subsets {A B : List Bytes} (h : (A.all B.contains && B.all A.contains) = true) (x : Bytes) : x ∈ A ↔ x ∈ B := by
+  simp only [Bool.and_eq_true, List.all_eq_true, List.contains_iff_mem] at h
+  exact ⟨h.1 x, h.2 x⟩
+
+theorem exists_iff_mem_filter_map (l : List Bytes) (g : Bytes → Bool) (f : Bytes → Bytes) (x : Bytes) :
+    (∃ n ∈ l, g n = true ∧ x = f n) ↔ x ∈ (l.filter g).map f := by
+  simp only [List.mem_map, List.mem_filter]
+  constructor
+  · rintro ⟨n, hn, hg, rfl⟩; exact ⟨n, ⟨hn, hg⟩, rfl⟩
+  · rintro ⟨n, ⟨hn, hg⟩, rfl⟩; exact ⟨n, hn, hg, rfl⟩
+
+def ext0 : Ext := { idnaXn := fun _ => true, isETLD := fun _ => false, ip6 := fun _ => none }
+def tw1 : Config where
+  origins := [Spec.b "https://a.com", Spec.b "https://*.b.com:8080"]
+  methods := [Spec.b "PUT", Spec.b "delete"]
+  requestHeaders := [Spec.b "X-Foo", Spec.b "Authorization"]
+  responseHeaders := [Spec.b "X-Bar"]
+  credentialed := true
+def tw2 : Config where
+  origins := [Spec.b "https://*.b.com:8080", Spec.b "https://a.com", Spec.b "https://a.com"]
+  methods := [Spec.b "DELETE", Spec.b "PUT", Spec.b "GET"]
+  requestHeaders := [Spec.b "authorization", Spec.b "x-foo", Spec.b "X-FOO"]
+  responseHeaders := [Spec.b "x-bar", Spec.b "X-Bar", Spec.b "Cache-Control"]
+  credentialed := true
+
+example : Twin tw1 tw2 where
+  credentialed := rfl
+  maxAge := rfl
+  status := rfl
+  pna := rfl
+  pnaNoCors := rfl
+  tolInsecure := rfl
+  tolPSL := rfl
+  origins := mem_iff_of_subsets (by decide)
+  methodsStar := by decide
+  methods := fun x => by
+    rw [exists_iff_mem_filter_map, exists_iff_mem_filter_map]; exact mem_iff_of_subsets (by decide) x
+  reqStar := by decide
+  reqAuth := by decide
+  req := fun x => by
+    rw [exists_iff_mem_filter_map, exists_iff_mem_filter_map]; exact mem_iff_of_subsets (by decide) x
+  resStar := by decide
+  res := fun x => by
+    rw [exists_iff_mem_filter_map, exists_iff_mem_filter_map]; exact mem_iff_of_subsets (by decide) x
+example : ∃ i, newInternalConfig ext0 tw1 = .ok i := by
+  unfold newInternalConfig; rw [if_pos (by decide)]; exact ⟨_, rfl⟩
+example : ∃ i, newInternalConfig ext0 tw2 = .ok i := by
+  unfold newInternalConfig; rw [if_pos (by decide)]; exact ⟨_, rfl⟩
+example : ∀ h info, ext0.ip6 h = some info → h.head? ≠ some 42 := fun _ _ h => by cases h
 
 #print axioms C15_star_auth
 #print axioms C15_errors_perm
 #print axioms C15_accept_perm
+#print axioms C15_full
+#print axioms C15_perm
 
 end Cors
